@@ -51,6 +51,7 @@ type sim struct {
 	curSlot uint64
 	step    int
 	stop    bool
+	relabel bool            // the next finding of an observing monitor will be re-labelled by its caller
 	passive int             // > 0 inside monitors that only observe
 	foreign map[string]bool // findings of other properties already recorded
 }
@@ -64,7 +65,7 @@ func (s *sim) viol(prop, sig, detail string) {
 		if s.foreign == nil {
 			s.foreign = map[string]bool{}
 		}
-		if !s.foreign[prop+"/"+sig] {
+		if !s.foreign[prop+"/"+sig] || s.relabel {
 			s.foreign[prop+"/"+sig] = true
 			s.res.Violate(prop, prop+"/"+sig, detail, s.step)
 		}
@@ -631,11 +632,16 @@ func (s *sim) checkImmutability() {
 		s.res.Stat("immutability_checks", 1)
 		// the cloned context stored with it must still describe that state
 		saved := len(s.res.Violations)
+		s.relabel = true // (what the monitor reports here is about to be re-labelled: no de-duplication)
 		s.checkContext(nil, b.post, fmt.Sprintf("stored post-state of the block at slot %d, re-checked later", b.slot))
+		s.relabel = false
 		if len(s.res.Violations) > saved {
 			v := &s.res.Violations[len(s.res.Violations)-1]
 			v.Property = "C15"
 			v.Signature = "C15/clone-independence/stored-" + strings.TrimPrefix(v.Signature, "C08/")
+			if s.opt.Property == "C15" || s.opt.Property == "" {
+				s.stop = true
+			}
 			return
 		}
 		if !bytes.Equal(now, b.postSSZ) {
@@ -675,7 +681,9 @@ func (s *sim) importBlock(n *simNode, b *blockRec) {
 		return
 	}
 	if n.id == 0 {
+		s.passive++
 		s.checkBlockCodec(b)
+		s.passive--
 		if s.stop {
 			return
 		}
@@ -1007,7 +1015,9 @@ func run(cfg *Config, opt core.Options, res *core.Result) *sim {
 					break
 				}
 				if s.opt.Property == "C03" || s.frng.Chance(1, 4) {
+					s.passive++
 					s.byzantine(parent, blk)
+					s.passive--
 					if s.stop {
 						break
 					}
@@ -1070,7 +1080,9 @@ func run(cfg *Config, opt core.Options, res *core.Result) *sim {
 		w.attest(hb, w.head, slot)
 		if s.gnode != nil {
 			s.curSlot = slot
+			s.passive++
 			s.gossipSlot(slot, blk, parent, hb)
+			s.passive--
 			if s.stop {
 				break
 			}
@@ -1082,7 +1094,9 @@ func run(cfg *Config, opt core.Options, res *core.Result) *sim {
 		if slot%cfg.SPE == 0 {
 			s.probes(hb, slot)
 		}
+		s.passive++
 		s.checkImmutability()
+		s.passive--
 	}
 	if res.Stats["blocks_produced"] > 4 {
 		res.Nontrivial = true
